@@ -763,3 +763,38 @@ package cache
 //@ func NewBugExcerpt
 //@   props C11
 //@   assert at `AllMetadata()` [create-metadata-read-from-the-compiled-bug] snap != nil
+
+// Rebuilding a sub-cache from git (C11: this is the specification the incrementally maintained cache is compared
+// with): every entity read gets its excerpt - computed from the very wrapper that is kept in memory -, and that
+// wrapper wraps the entity read.
+//@ func (*SubCache).Build$1
+//@   props C11
+//@   stable excerptFrom, cachedFrom
+//@   assert at `indexData := sc.makeIndexData(cached)` [rebuilt-entity-has-its-excerpt-and-instance] (e.Entity.Id() in sc.excerpts) && excerptFrom[sc.excerpts[e.Entity.Id()]] == cached && (e.Entity.Id() in sc.cached) && sc.cached[e.Entity.Id()] == cached && cachedFrom[cached] == e.Entity
+
+// Exchanging with a remote through the cache (C01, C02: replicas converge only if everything is exchanged): a fetch
+// and a push name the namespace of every sub-cache, and a merge handles identities before bugs (bugs refer to them).
+//@ func cacheMgmt.GetNamespace
+//@   purefn
+//@ func (*RepoCache).Fetch
+//@   props C02 C01
+//@   assert at `return c.repo.FetchRefs(remote, prefixes...)` [every-namespace-exchanged] len(prefixes) == len(c.subcaches) && (forall i int :: { prefixes[i] } 0 <= i && i < len(prefixes) ==> prefixes[i] == c.subcaches[i].GetNamespace())
+//@   loop 1
+//@     invariant len(prefixes) == len(c.subcaches) && fresh(prefixes)
+//@     invariant forall i int :: { prefixes[i] } 0 <= i && i <= rangeindex ==> prefixes[i] == c.subcaches[i].GetNamespace()
+//@ func (*RepoCache).Push
+//@   props C02 C01
+//@   assert at `return c.repo.PushRefs(remote, prefixes...)` [every-namespace-exchanged] len(prefixes) == len(c.subcaches) && (forall i int :: { prefixes[i] } 0 <= i && i < len(prefixes) ==> prefixes[i] == c.subcaches[i].GetNamespace())
+//@   loop 1
+//@     invariant len(prefixes) == len(c.subcaches) && fresh(prefixes)
+//@     invariant forall i int :: { prefixes[i] } 0 <= i && i <= rangeindex ==> prefixes[i] == c.subcaches[i].GetNamespace()
+//@ func (*RepoCache).MergeAll
+//@   props C02
+//@   assert at `go func() {` [identities-before-bugs] len(dependency) == 2 && len(dependency[0]) == 1 && len(dependency[1]) == 1 && dependency[0][0] == c.identities && dependency[1][0] == c.bugs
+
+// Opening a cache (C19): the lock is taken before anything is read or built, and a refused lock ends the opening -
+// nothing is loaded, nothing is built, nothing is written.
+//@ func NewNamedRepoCache$1
+//@   props C19
+//@   requires c != nil && c.repo != nil
+//@   assert at `err = c.load()` [loads-only-holding-the-lock] err == nil && lastAvailable
